@@ -356,7 +356,7 @@ func (c *Ctx) Case(class string, bad string, sig string, sample func() interface
 	c.Cases++
 	if c.fl != nil { // heartbeat for the watchdog: a family whose next case never finishes is reported
 		atomic.AddInt64(&c.beat, 1)
-		atomic.StoreInt64(&c.fl.since, time.Now().UnixNano()+int64(100*time.Second))
+		atomic.StoreInt64(&c.fl.since, time.Now().UnixNano()+int64(280*time.Second))
 	}
 	if len(c.outcomes) < 100000 {
 		c.outcomes[class] = true
